@@ -203,3 +203,42 @@ def current_thread() -> Any:
 
 def shim() -> Any:
     return S.threading_shim(Thread=RegThread, current_thread=current_thread)
+
+
+# --------------------------------------------------------------------------------------------------------
+# delay-bounded exploration on top of vf.core.sched
+
+
+class _DelayPoints(list):  # type: ignore[type-arg]
+    """``Sched.points`` whose entries charge 1 for *every* alternative, also when the running task blocked."""
+
+    def append(self, p: Any) -> None:
+        p["costs"] = [0] + [1] * (len(p["ids"]) - 1)
+        super().append(p)
+
+
+class DelaySched(S.Sched):
+    """Scheduler whose bound counts *deviations from the deterministic default scheduler* (delay bounding).
+
+    The stock engine charges only preemptions; a switch taken when the running task blocks is free, so all
+    non-preemptive schedules are enumerated at bound 0.  With 5-7 tasks that block at every message (clients,
+    per-connection server threads, accept loop) that set alone is exponential in the number of messages.  Here
+    the default choice stays "keep running the current task, else the enabled task with the lowest id" and any
+    other choice at any choice point costs 1, so bound k = all schedules with at most k deviations - polynomial,
+    still exhaustive within the stated bound.
+    """
+
+    def __init__(self, *a: Any, **kw: Any) -> None:
+        super().__init__(*a, **kw)
+        self.points = _DelayPoints()
+
+
+class delay_bounded:
+    """``with delay_bounded(): S.explore(...)`` - the engine instantiates :class:`DelaySched`."""
+
+    def __enter__(self) -> None:
+        self.old = S.Sched
+        S.Sched = DelaySched  # type: ignore[misc]
+
+    def __exit__(self, *a: Any) -> None:
+        S.Sched = self.old  # type: ignore[misc]
